@@ -10,7 +10,7 @@ Open Scope N_scope.
 Theorem C17_shape : forall s v, iota_parse s = Ok v ->
   tag_ok (iota_tag v) = true /\ net_ok (iota_network v) = true /\ iota_normal v
   /\ (v = iota_tag v \/ v = iota_network v ++ 58 :: iota_tag v)
-  /\ exists i, core_did_parse (map ascii_lower s) = Ok (IOTA, i) /\ v = iota_normalize i.
+  /\ exists i, core_did_parse (to_lower s) = Ok (IOTA, i) /\ v = iota_normalize i.
 Proof. exact iota_parse_shape. Qed.
 (* equality of values in normal form = equality of (network, tag) *)
 Theorem C17_eq_iff : forall a b, iota_normal a -> iota_normal b ->
@@ -21,6 +21,22 @@ Theorem C17_accessors_recompose : forall n t, existsb (N.eqb 58) n = false ->
   denorm (n ++ 58 :: t) = (n, t).
 Proof. exact (fun n t H => f_equal (fun o => match o with Some (a, b) => (a, b) | None => (IOTA, n ++ 58 :: t) end) (split_colon_app n t H)). Qed.
 
+(* every accepted IOTA DID re-parses from its string form ("did:iota:" ++ value) to the SAME value *)
+Theorem C17_reparse : forall s v, iota_parse s = Ok v -> iota_parse (iota_to_string v) = Ok v.
+Proof. exact iota_reparse. Qed.
+(* IotaDID::new(32 tag bytes, network): for the lower-case hex th of ANY 32 bytes and ANY valid network name n the
+   constructor succeeds (its expect() cannot fire), exposes exactly "0x" ++ th and n, and elides the default network *)
+Theorem C17_new_spec : forall th n, length th = 64%nat -> forallb is_lower_hexdig th = true -> net_ok n = true ->
+  exists v, iota_new th n = Ok v /\ iota_tag v = 48 :: 120 :: th /\ iota_network v = n /\ iota_normal v
+            /\ (n = IOTA -> v = 48 :: 120 :: th) /\ (n <> IOTA -> v = n ++ 58 :: 48 :: 120 :: th).
+Proof. exact iota_new_spec. Qed.
+(* lower-casing: the value never holds an upper-case ASCII letter *)
+Theorem C17_lowercase : forall s, forallb not_upper (to_lower s) = true.
+Proof. exact to_lower_not_upper. Qed.
+
 Print Assumptions C17_shape.
 Print Assumptions C17_eq_iff.
 Print Assumptions C17_accessors_recompose.
+Print Assumptions C17_reparse.
+Print Assumptions C17_new_spec.
+Print Assumptions C17_lowercase.
